@@ -61,6 +61,41 @@ def _setup(case):
     S.CTX.trace = []
 
 
+_REG = {"timer": "register_handle_timer", "packet": "register_handle_packet", "telem": "register_handle_telemetry"}
+
+
+def _install(proto, ins):
+    """a plugin switched on in the middle of a session: the protocol asks for its dispatcher from inside a callback
+    and registers a handler for one callback kind; from then on that handler issues one more request, before the
+    protocol's own method runs"""
+    from gradysim.protocol.plugin.dispatcher import create_dispatcher, DispatchReturn
+    kind, act = ins
+
+    def handler(instance, *args):
+        try:
+            instance._do(act)
+            res = "ok"
+        except ValueError:
+            res = "errvalue"
+        S.CTX.trace.append("act %d %s %s" % (instance.provider.get_id(), S._act_str(act), res))
+        return DispatchReturn.CONTINUE
+    getattr(create_dispatcher(proto), _REG[kind])(handler)
+
+
+def model_rules(case):
+    """the same session for the model: a handler installed during callback j is one more rule (first in the list: handlers
+    run before the protocol's method, newest first) for every later occurrence of that callback kind"""
+    extra = []
+    for j, cb in enumerate(case["cbs"]):
+        ins = cb.get("install")
+        if ins:
+            kind, act = ins
+            m0 = sum(1 for c in case["cbs"][:j + 1] if c["kind"] == kind)
+            total = sum(1 for c in case["cbs"] if c["kind"] == kind)
+            extra = [{"trig": (kind, None), "nth": m, "acts": [act]} for m in range(m0, total)] + extra
+    return extra + list(case["rules"])
+
+
 def run_interop_impl(case):
     """returns one line per callback: 'ret | conseq ... ; outcome ...'"""
     _setup(case)
@@ -83,9 +118,11 @@ def run_interop_impl(case):
                 mark = len(S.CTX.trace)
                 tracks = cb.get("tracks", [])
 
-                def hook(proto, tracks=tracks):
+                def hook(proto, tracks=tracks, ins=cb.get("install")):
                     for k, v in tracks:
                         proto.provider.tracked_variables[str(k)] = v
+                    if ins:
+                        _install(proto, ins)
                 S.CTX.after_fire = hook
                 try:
                     cons = _deliver(enc, cb)
@@ -150,18 +187,21 @@ def run_python_wrapper(case):
         for cb in case["cbs"]:
             timer.now = cb["t"]
             del log[:]
+            S.CTX.after_fire = (lambda proto, ins=cb.get("install"): _install(proto, ins)) if cb.get("install") else None
             try:
                 _deliver(enc, cb)
                 out.append(list(log))
             except Exception as e:  # noqa: BLE001
                 out.append(["exc %s" % type(e).__name__])
+    S.CTX.after_fire = None
     logging.disable(logging.NOTSET)
     return out
 
 
 def interop_to_text(sid, case):
-    p = ["BEGIN %s interop %d %d" % (sid, case["nid"], len(case["rules"]))]
-    for r in case["rules"]:
+    rules = model_rules(case)
+    p = ["BEGIN %s interop %d %d" % (sid, case["nid"], len(rules))]
+    for r in rules:
         t = r["trig"]
         p.append("%s %s" % (t[0], "any" if t[1] is None else str(t[1])) if t[0] in ("timer", "packet") else t[0])
         p.append("any" if r["nth"] is None else str(r["nth"]))
